@@ -348,6 +348,114 @@ def slice_assumptions(assumptions, goal):
     return keep
 
 
+_NL = {}
+_NL_CACHE = {}
+_NL_SIMP = {}
+
+
+def abstract_nonlinear(formulas):
+    """replace every product of >= 2 non-numeral factors, every division by a non-numeral and every power by an
+    application of an uninterpreted function of its (abstracted) arguments.  The abstraction forgets everything about
+    multiplication except that it is a function, so `unsat` of the abstraction implies `unsat` of the original
+    (sound for proving; a `sat` answer means nothing).  Makes goals that are equal up to substitution / case
+    analysis (loop step checks over large rational terms) pure EUF + linear arithmetic."""
+    cache = _NL_CACHE      # ast id -> (term kept alive, abstraction); shared by all queries of the process
+
+    def fn(kind, sorts, rng):
+        key = (kind, tuple(str(x) for x in sorts), str(rng))
+        if key not in _NL:
+            _NL[key] = z3.Function(f"NL{kind}{len(_NL)}", *sorts, rng)
+        return _NL[key]
+
+    def is_num(e):
+        return z3.is_int_value(e) or z3.is_rational_value(e)
+
+    def split_coef(e):
+        """e == coef * rest (rest None when e is a numeral); only a leading numeral factor of a product is split off"""
+        from fractions import Fraction
+        def val(c):
+            return Fraction(c.as_long()) if z3.is_int_value(c) else Fraction(c.numerator_as_long(), c.denominator_as_long())
+        if is_num(e):
+            return val(e), None
+        if z3.is_app(e) and e.decl().kind() == z3.Z3_OP_MUL:
+            ks = e.children()
+            nums = [c for c in ks if is_num(c)]
+            rest = [c for c in ks if not is_num(c)]
+            if nums and rest:
+                q = Fraction(1)
+                for c in nums:
+                    q *= val(c)
+                r = rest[0]
+                for c in rest[1:]:
+                    r = r * c
+                return q, r
+        return Fraction(1), e
+
+    def walk(e):
+        i = e.get_id()
+        if i in cache:
+            return cache[i][1]
+        if z3.is_quantifier(e) or not z3.is_app(e) or e.num_args() == 0:
+            cache[i] = (e, e)
+            return e
+        kids = [walk(c) for c in e.children()]
+        k = e.decl().kind()
+        r = None
+        if k == z3.Z3_OP_MUL:
+            nums = [c for c in kids if is_num(c)]
+            rest = [c for c in kids if not is_num(c)]
+            if len(rest) >= 2:
+                rest = sorted(rest, key=lambda t: t.sexpr())
+                r = fn("mul", [c.sort() for c in rest], e.sort())(*rest)
+                for c in nums:
+                    r = c * r
+        elif k == z3.Z3_OP_DIV and not is_num(kids[1]):
+            # (c x) / (e y) = (c / e) (x / y) for numerals c, e != 0: numeral factors are kept outside the abstraction
+            cn, xn = split_coef(kids[0])
+            cd, xd = split_coef(kids[1])
+            if xn is None:
+                xn = z3.RealVal(1)
+            if xd is None or cd == 0:
+                r = fn("div", [c.sort() for c in kids], e.sort())(*kids)
+            else:
+                r = fn("div", [xn.sort(), xd.sort()], e.sort())(xn, xd)
+                q = cn / cd
+                if q != 1:
+                    r = z3.RealVal(str(q)) * r
+        elif k in (z3.Z3_OP_IDIV, z3.Z3_OP_MOD) and not is_num(kids[1]):
+            r = fn({z3.Z3_OP_IDIV: "idiv", z3.Z3_OP_MOD: "mod"}[k], [c.sort() for c in kids], e.sort())(*kids)
+        elif k == z3.Z3_OP_POWER:
+            r = fn("pow", [c.sort() for c in kids], e.sort())(*kids)
+        if r is None:
+            r = e.decl()(*kids)
+        cache[i] = (e, r)
+        return r
+    import sys
+    sys.setrecursionlimit(max(sys.getrecursionlimit(), 50000))
+    out = []
+    for f in formulas:
+        i = f.get_id()
+        if i not in _NL_SIMP:
+            _NL_SIMP[i] = (f, z3.simplify(f))
+        out.append(walk(_NL_SIMP[i][1]))
+    return out
+
+
+def _try_uf_abstraction(formulas, timeout_s):
+    try:
+        fs = abstract_nonlinear(formulas)
+    except Exception:  # pragma: no cover
+        return False
+    s = z3.Solver()
+    s.set("timeout", int(timeout_s * 1000))
+    for f in fs:
+        s.add(f)
+    try:
+        return s.check() == z3.unsat
+    except z3.Z3Exception:  # pragma: no cover
+        return False
+
+
 def prove(assumptions, goal, timeout_s=10, opts=None, rounds=2):
     """PROVED iff assumptions ∧ axiom-instances ∧ ¬goal is unsat"""
     t0 = time.time()
@@ -387,8 +495,16 @@ def prove(assumptions, goal, timeout_s=10, opts=None, rounds=2):
     if not (opts or {}).get("no_slice"):
         assumptions = slice_assumptions(list(assumptions), goal)
     base = [a for a in assumptions] + [z3.Not(goal)]
+    if (opts or {}).get("uf_abstraction"):
+        # cheapest attempt first: no axiom instances at all (index bounds, shape facts, equal-up-to-substitution goals)
+        if _try_uf_abstraction(base, min(timeout_s, 2)):
+            return Verdict(PROVED, "z3-5.1(nonlinear-terms-as-UF)", (time.time() - t0) * 1000)
     inst = axioms.saturate(base, rounds=int((opts or {}).get("rounds", rounds)), opts=opts)
     formulas = base + inst
+    if (opts or {}).get("uf_abstraction"):
+        # opt-in accelerator: nonlinear operators as uninterpreted functions (sound for `unsat`)
+        if _try_uf_abstraction(formulas, min(timeout_s, (opts or {}).get("uf_abstraction_timeout", 5))):
+            return Verdict(PROVED, "z3-5.1(nonlinear-terms-as-UF)", (time.time() - t0) * 1000)
     res, model, backend, ms = check_formulas(formulas, timeout_s)
     if res == "unsat":
         return Verdict(PROVED, backend, ms)
